@@ -511,6 +511,56 @@ func runC12(ctx *core.Ctx, pool *par.Pool) {
 			}, nil)
 		}
 	}
+	// region-size sweep: n one-page events are flushed, read and ACKed so that
+	// the freed pages form one free region of about n pages, then the file is
+	// reopened; every n up to well past the 255-page boundary of the on-disk
+	// free-list encoding. The space oracle runs after every operation, so pages
+	// that are lost (or invented) by a close/open are seen right away.
+	sweepCfg := QCfgSpec{File: "E", Buffer: 5}
+	lo, hi := 230, 290
+	if !quick {
+		lo, hi = 1, 600
+	}
+	sweeps := 0
+	var sweepTasks [][]byte
+	var sweepPaths [][]Q
+	for n := lo; n <= hi; n++ {
+		var path []Q
+		for i := 0; i < n; i++ {
+			path = append(path, Q{K: queuedrv.QWrite, A: 900})
+		}
+		path = append(path, Q{K: queuedrv.QFlush}, Q{K: queuedrv.QReadAll}, Q{K: queuedrv.QAck, A: 0}, Q{K: queuedrv.QReopen},
+			Q{K: queuedrv.QWrite, A: 900}, Q{K: queuedrv.QFlush}, Q{K: queuedrv.QReadAll}, Q{K: queuedrv.QAck, A: 0}, Q{K: queuedrv.QReopen},
+			Q{K: queuedrv.QFill, A: 900}, Q{K: queuedrv.QReadAll}, Q{K: queuedrv.QAck, A: 0})
+		raw, _ := json.Marshal(QCycleTask{Type: "qcycle", Cfg: sweepCfg, Path: path})
+		sweepTasks = append(sweepTasks, raw)
+		sweepPaths = append(sweepPaths, path)
+	}
+	perFill := map[int]int{}
+	pool.Run(sweepTasks, ctx.Deadline, 10*time.Minute, func(i int, out []byte, terr *par.TaskError) {
+		if terr != nil {
+			ctx.EngineError("sweep task: %s %s", terr.Msg, terr.Stderr)
+			return
+		}
+		var r QCycleResult
+		if err := json.Unmarshal(out, &r); err != nil || r.EngineError != "" {
+			ctx.EngineError("sweep task: %v %s", err, r.EngineError)
+			return
+		}
+		sweeps++
+		if len(r.PerCycle) > 0 {
+			perFill[r.PerCycle[len(r.PerCycle)-1]]++
+		}
+		for _, v := range r.Viol {
+			if ownsC12(v.Class) {
+				ctx.Violate(v.Class, fmt.Sprintf("queue %s, %d one-page events flushed, ACKed, reopened: %s", sweepCfg, lo+i, v.Msg), QPathDoc{Kind: "qpath", Cfg: sweepCfg, Path: sweepPaths[i], Space: true})
+			}
+		}
+	}, nil)
+	ctx.Set("region_size_sweep_scripts", sweeps)
+	ctx.Set("region_size_sweep_range", []int{lo, hi})
+	ctx.Set("region_size_sweep_fill_counts", fmt.Sprint(perFill))
+	cycles += sweeps
 	ctx.Set("fill_drain_cycle_scripts", cycles)
 	ctx.Set("fill_operations", fills)
 	ctx.Set("states", total.States)
